@@ -1784,7 +1784,7 @@ func (ex *Exec) siteLabel(pos token.Pos) string {
 }
 
 func (ex *Exec) boundsObl(p *Path, idx, length string, pos token.Pos) {
-	if !ex.safety || ex.inContract() {
+	if !ex.safety || ex.inContract() || ex.quantFacts != nil {
 		return
 	}
 	ex.addObl(p, ex.funcKey+"#nopanic:index@"+ex.siteLabel(pos), "safety", "index in range", "(and (>= "+idx+" 0) (< "+idx+" "+length+"))", pos, "")
@@ -1802,7 +1802,9 @@ func (ex *Exec) nilObl(p *Path, v Value, pos token.Pos) {
 		p.Assume(not(ex.isNilTerm(v)))
 		return
 	}
-	if !ex.safety || ex.boundsOnly || ex.inContract() {
+	if !ex.safety || ex.boundsOnly || ex.inContract() || ex.quantFacts != nil {
+		// (inside the body of a quantifier a term is being built for a specification, e.g. a nil-safe getter inlined into a
+		// quantified precondition: nothing is executed there)
 		return
 	}
 	ex.addObl(p, ex.funcKey+"#nopanic:nil@"+ex.siteLabel(pos), "safety", "nil dereference", not(ex.isNilTerm(v)), pos, "")
